@@ -13,7 +13,7 @@ RULE = ('cases = EAM models: every ordered subset of {Al,Cu,Fe,Ni} (size 1..3 qu
         'under-specified embedding sets x grid x route {class, writeSetFL, Configuration.read, potable} x target spelling; plus '
         'two-model histories; every case executed; non-trivial = >= 2 elements or >= 1 declared pair (all functions distinct '
         'per element/pair so any mis-routing changes a number)')
-RULE += '; label models (anagram labels, 8-character labels, numbers of different digit counts, element lines of very different lengths), pair potentials of species without EAM functions, comments= lists of 0..5 entries, EAMPotential objects whose functions are assigned after construction, numpy-returning callables, [Species] written property-major / interleaved, (nr, nrho) up to (20001, 50000)'
+RULE += '; label models (anagram labels, 8-character labels, numbers of different digit counts, element lines of very different lengths), pair potentials of species without EAM functions, comments= lists of 0..5 entries, EAMPotential objects whose functions are assigned after construction, numpy-returning callables, [Species] written property-major / interleaved, (nr, nrho) up to (20001, 50000); values of 1e-127 .. 1e120 inside the tabulated range (three-digit exponents); nrho = 1000001 and nr = 1234567 (seven-digit counts; every 9973rd row recomputed); the grid itself: writeSetFL / writeSetFLFinnisSinclair given staircase functions with a step at every grid point float(i)*step'
 ASSUMPTIONS = [
     'setfl token-stream layout as LAMMPS pair_style eam/alloy reads it (mc/readers/eam.py)',
     'reference closed forms for polynomial/bornmayer/morse; tolerance 1e-9 relative + 1e-13 absolute on %20.16e numbers',
@@ -88,6 +88,14 @@ def cases(tier):
     for m in EK.big_grid_models(False):
         for route in (('cls', 'potable') if tier == 'quick' else ('cls', 'proc', 'cfg', 'potable')):
             out.append(dict(m=m, route=route, spelling='setfl', big=True))
+    for i, m in enumerate(EK.extreme_models(False)):
+        for route in (('cls', 'potable') if m.get('mag') else (('proc',) if i % 2 else ('cfg',))):
+            out.append(dict(m=m, route=route, spelling='setfl', big=True))
+    # the grid itself: staircase functions with a step at every grid point, every pairing of 8 (step, rows) choices for the two grids
+    for g1 in EK.GRID_EXACT:
+        for g2 in EK.GRID_EXACT:
+            for fs in (False, True):
+                out.append(dict(kind='grid-exact', rho=list(g1), r=list(g2), fs=fs))
     # histories: a model with [Species] overrides is built first, then the same elements without overrides
     for els in (['Al'], ['Al', 'Cu'], ['Fe', 'Ni', 'Al']):
         for route in ('cfg', 'potable', 'cls'):
@@ -97,8 +105,8 @@ def cases(tier):
     return out
 
 
-def close(a, b):
-    return abs(a - b) <= 1e-9 * abs(b) + 1e-13
+def close(a, b, floor=1e-13):
+    return abs(a - b) <= 1e-9 * abs(b) + floor
 
 
 def check_setfl(m, route, text, kind='alloy', els_given=None):
@@ -131,6 +139,10 @@ def check_setfl(m, route, text, kind='alloy', els_given=None):
     if not close(t['dr'], dr):
         V('header-dr', 'header dr=%r, expected cutoff/(nr-1)=%r' % (t['dr'], dr))
     ref = EK.ref_functions(m, EK.semantics(route))
+    # models of extreme magnitudes: pure exponentials / monomials (no cancellation), printed with 17 significant digits - relative only
+    floor = 0.0 if m.get('mag') else 1e-13
+    stride = m.get('stride', 1)          # million-row tables: every stride-th row and the last ones are recomputed
+    pick = lambda n_: (lambda i: stride == 1 or i % stride == 0 or i >= n_ - 3)   # noqa
     for blk in t['blocks']:
         el = blk['el']
         Z, mass, a, lat = EK.ref_meta(m, el, route)
@@ -138,27 +150,63 @@ def check_setfl(m, route, text, kind='alloy', els_given=None):
         if blk['Z'] != Z or not rel(blk['mass'], mass) or not rel(blk['a'], a) or blk['lattice'] != lat:
             V('metadata', 'element %s: metadata %r, expected %r' % (el, (blk['Z'], blk['mass'], blk['a'], blk['lattice']), (Z, mass, a, lat)))
         for i, v in enumerate(blk['embed']):
+            if not pick(len(blk['embed']))(i):
+                continue
             r = ref['F'][el](i * drho).v
-            if not close(v, r):
+            if not close(v, r, floor):
                 V('embed', 'element %s: F[%d] (rho=%r) = %r, reference %r' % (el, i, i * drho, v, r))
                 break
         if kind != 'fs':
             for i, v in enumerate(blk['dens']):
+                if not pick(len(blk['dens']))(i):
+                    continue
                 r = ref['rho'][el](i * dr).v
-                if not close(v, r):
+                if not close(v, r, floor):
                     V('density', 'element %s: rho[%d] (r=%r) = %r, reference %r' % (el, i, i * dr, v, r))
                     break
     for (i, j), vals in t['pair'].items():
         f = ref['phi'](els[i], els[j])
         for k, v in enumerate(vals):
+            if not pick(len(vals))(k):
+                continue
             r = k * dr * f(k * dr).v
-            if not close(v, r):
+            if not close(v, r, floor):
                 V('pair', 'pair block (%s,%s): value %d (r=%r) = %r, reference r*phi=%r' % (els[i], els[j], k, k * dr, v, r))
                 break
     return viol, t
 
 
+def run_grid_exact(case):
+    """writeSetFL / writeSetFLFinnisSinclair are handed the steps themselves: row i of every array is the function at float(i)*step"""
+    import io
+    import atsim.potentials as ap
+    (drho, nrho), (dr, nr), fs = case['rho'], case['r'], case['fs']
+    pots, eam = EK.grid_exact_objects(nrho, drho, nr, dr, fs)
+    out = io.StringIO()
+    (ap.writeSetFLFinnisSinclair if fs else ap.writeSetFL)(nrho, drho, nr, dr, eam, pots, out)
+    viol = []
+    try:
+        t = RE.read_setfl(out.getvalue(), 'fs' if fs else 'alloy')
+    except FormatError as e:
+        return dict(outcome='violation', nontrivial=True, evals=1, violations=[dict(sig='format-error', msg='unreadable setfl: %s' % e, detail={})])
+    arrays = [('embedding', drho, t['blocks'][0]['embed'], [float(i + 1) for i in range(nrho)]),
+              ('density', dr, t['blocks'][0]['dens'][0] if fs else t['blocks'][0]['dens'], [float(i + 1) for i in range(nr)]),
+              ('r*phi', dr, t['pair'][(0, 0)], [float(i) * dr * (i + 1) for i in range(nr)])]
+    n = 0
+    for name, step, got, want in arrays:
+        n += len(got)
+        bad = [k for k, (a, c) in enumerate(zip(got, want)) if not abs(a - c) <= 1e-12 * abs(c)]
+        if bad or len(got) != len(want):
+            i = bad[0] if bad else min(len(got), len(want))
+            viol.append(dict(sig='grid-position:%s' % name, msg='%s array, step %r, %d points: row %d holds %r, a staircase with a step at every grid point gives %r at %d*step = %r (the function was evaluated at another argument)'
+                             % (name, step, len(want), i, got[i] if i < len(got) else None, want[i] if i < len(want) else None, i, float(i) * step), detail={}))
+            break
+    return dict(outcome='ok:grid-exact' if not viol else 'violation', nontrivial=True, evals=max(1, n), violations=viol)
+
+
 def run_case(case):
+    if case.get('kind') == 'grid-exact':
+        return run_grid_exact(case)
     m, route = case['m'], case['route']
     if case.get('pre'):
         EK.produce(case['pre'], 'setfl', route, case.get('spelling'))
